@@ -67,6 +67,15 @@ def generate(rng, tier):
             fpr = rng.choice([("u",), ("s",), ("o", rng.choice(SLOTS)), ("o", -16)])
             rar = rng.choice([("u",), ("s",), ("o", -8), ("o", -8), ("o", rng.choice(SLOTS))])
             rows.append(dict(cfa=cfa, fp=fpr, ra=rar))
+        if rep < 2 or tier != "quick" and rep % 8 < 2:
+            # the full cross product of the small special values (the shortcuts of the translation are conjunctions
+            # of exactly such values: every combination occurs, not only the standard ones)
+            small = [("u",), ("s",), ("o", -8), ("o", -16), ("o", -24)]
+            for reg in (R["sp"], R["fp"]):
+                for off in (0, 8, 16, 24, 32):
+                    for fpr in small:
+                        for rar in small:
+                            rows.append(dict(cfa=("r", reg, off), fp=fpr, ra=rar))
         pres = ["hdr", "eh", "debug"][rep % 3]
         fdes = [dict(start=0x1000 + 0x10 * i, len=0x10, rows=[(0, r)]) for i, r in enumerate(rows)]
         s.module_dwarf("M", 0x100000, 0x100000 + 0x1000 + 0x10 * len(rows) + 0x100, 0x100000, 0, pres, fdes, rng, shuffle=True)
